@@ -27,6 +27,8 @@ TOL = 1e-6
 def gen_cases(rng, n, n_adv, n_ship=0):
     cases = [{"seed": rng.randrange(1 << 30), "stream": "friendly"} for _ in range(n)]
     cases += [{"seed": rng.randrange(1 << 30), "stream": "adversarial"} for _ in range(n_adv)]
+    for which in ("last", "first", "last", "first"):
+        cases.append({"seed": rng.randrange(1 << 30), "stream": "friendly", "edge": which})
     import shipdesc
     for k in range(n_ship):
         cases.append({"seed": rng.randrange(1 << 30), "stream": "shipped", "gene": shipdesc.SMALL[k % len(shipdesc.SMALL)],
@@ -162,6 +164,13 @@ def run_case(case):
                 alleles = [rng.choice(withvar), rng.choice(withvar if rng.random() < 0.6 else names)]
         else:
             kind, alleles = plant(rng, desc)
+            if case.get("edge"):
+                # an allele defined on the first / last base of the RefSeq mapping: the outermost aligned genome base, where the
+                # window tests of the loader (sam.py:584-589) decide whether an observation is a variant or folded into the reference
+                nm = gendb.plant_edge_allele(desc, yml, case["edge"], salt=case["seed"])
+                if nm is not None:
+                    normal = [a for a, v in desc["alleles"].items() if v["kind"] == "normal"]
+                    kind, alleles = "edge-" + case["edge"], [nm, rng.choice(normal)]
         bam = os.path.join(d, f"S{case['seed'] % 100000}.bam")
         info = simreads.simulate(desc, build, alleles, None, L, step, bam, rng)
         out = {"planted": alleles, "kind": kind, "build": build, "strand": desc["builds"][build]["strand"], "L": L, "depth": L // step,
